@@ -15,6 +15,7 @@ class RequestResponseRequester(StreamHandler, Requester):
         super().__init__(socket)
         self._payload = payload
         self._future = create_future()
+        self._response_received = False
 
     def setup(self):
         self._future.add_done_callback(self._on_future_complete)
@@ -27,6 +28,12 @@ class RequestResponseRequester(StreamHandler, Requester):
         return self._future
 
     def frame_received(self, frame: Frame):
+        if self._future.done():
+            # Cancelled locally, and the response arrived before the done callback sent the cancel frame.
+            self._response_received = True
+            self._finish_stream()
+            return
+
         if isinstance(frame, PayloadFrame):
             self._future.set_result(payload_from_frame(frame))
             self._finish_stream()
@@ -35,7 +42,7 @@ class RequestResponseRequester(StreamHandler, Requester):
             self._finish_stream()
 
     def _on_future_complete(self, future: asyncio.Future):
-        if future.cancelled():
+        if future.cancelled() and not self._response_received:
             self.cancel()
 
     def cancel(self):
